@@ -27,7 +27,8 @@ COMPONENTS = {'HeapDict': 'real code (matched_markets.methodology.heapdict)',
 
 KS = (0, 1, 1, 2, 2, 3, 3, 5, 8, 13)
 SHAPES = ('ascending', 'descending', 'constant', 'ties', 'random', 'below')
-FAMILIES = ('int', 'float', 'tuple', 'str', 'item', 'item_tuple', 'item_eq')
+FAMILIES = ('int', 'float', 'tuple', 'str', 'item', 'item_tuple', 'item_eq',
+            'rec')
 MUTATIONS = ('clear_dict', 'clear_lists', 'pop_first', 'pop_last',
              'append_junk', 'reverse_lists', 'del_key', 'sort_lists')
 
@@ -78,6 +79,30 @@ class EqItem(Item):
     return self.uid % 3
 
 
+class Rec(tuple):
+  """A record (name, score, uid) ranked by its score through __lt__ ALONE --
+  like a namedtuple given a custom __lt__: every other comparison (>, <=, ==)
+  is the inherited, lexicographic one and starts with the name.  The container
+  promises that `<` is all it needs."""
+  __slots__ = ()
+
+  def __new__(cls, score, uid):
+    return tuple.__new__(cls, ('%04d' % ((uid * 7919 + 13) % 10000), score,
+                               uid))
+
+  score = property(lambda self: self[1])
+  uid = property(lambda self: self[2])
+
+  def __lt__(self, other):
+    return self[1] < other[1]
+
+  def __repr__(self):
+    return 'Rec(%r,#%d)' % (self[1], self[2])
+
+
+ITEMS = (Item, Rec)
+
+
 # --------------------------------------------------------------------------
 # generation
 # --------------------------------------------------------------------------
@@ -106,7 +131,7 @@ def _encode_level(rng, family, level, uid):
     return [level // 4, level % 4]
   if family == 'str':
     return '%05d' % (level + 5000)
-  if family in ('item', 'item_eq'):
+  if family in ('item', 'item_eq', 'rec'):
     return {'s': level, 'u': uid}
   if family == 'item_tuple':
     return {'s': [level // 3, level % 3], 'u': uid}
@@ -239,15 +264,17 @@ def _decode_value(family, v):
     return EqItem(v['s'], v['u'])
   if family == 'item_tuple':
     return Item(tuple(v['s']), v['u'])
+  if family == 'rec':
+    return Rec(v['s'], v['u'])
   return v
 
 
 def _sortkey(v):
-  return v.score if isinstance(v, Item) else v
+  return v.score if isinstance(v, ITEMS) else v
 
 
 def _show(v):
-  if isinstance(v, Item):
+  if isinstance(v, ITEMS):
     return ['item', core.canon(v.score), v.uid]
   return core.canon(v)
 
@@ -272,8 +299,8 @@ def _check_read(res, model, k, step, op_kind):
           PROPERTY, 'H1', step, op_kind,
           'queue of key %r has %d items, model %d' % (key, len(got), len(exp)),
           expected=[_show(v) for v in exp], got=[_show(v) for v in got])
-    if any(isinstance(v, Item) for v in exp):
-      ok = all(isinstance(g, Item) for g in got)
+    if any(isinstance(v, ITEMS) for v in exp):
+      ok = all(isinstance(g, ITEMS) for g in got)
       ok = ok and [g.score for g in got] == [e.score for e in exp]
       pushed_uids = {p.uid: p for p in pushed}
       uids = [g.uid for g in got] if ok else []
